@@ -159,6 +159,30 @@ R7 = {
 for _k, _v in R7.items():
     CHECKS[_k]["text"] += " " + _v
 
+R8 = {
+ "C01": "Wide constructs (65 / 257 parts, statements, arguments, parameters, elements, events; thorough: both sides of 64, 256, 1025) and shapes the generator fixes to one spelling (21 literal spellings, try statements, non-ASCII identifiers).",
+ "C02": "Inputs extreme in one dimension (harness/src/scale.rs): 257 and 1001 findings of one pattern at column 0, line numbers and byte offsets beyond 16 bits, a 70 000-byte line, NEL / LS / PS / VT / FF as line-end look-alikes; inside a gray construct every line on which one of its nodes begins is admissible.",
+ "C03": "Trees with CRLF / CR / mixed / multi-byte / unterminated long contents, equal-length files that differ only beyond 4 KB and 64 KB, the same construct at one byte offset on different lines, version-looking text after the directive, directories of 65 / 257 / 1025 files, names that differ in how a number is written, adjacent test files; a selection of the version-gated patterns.",
+ "C04": "The scale inputs of C01 / C02 / C09 (without chains deeper than 64) in both build profiles.",
+ "C05": "The reported line must be the line on which the construct begins (mode SemanticLines); zero literals that are not address(0); every 8th program again with CRLF line ends and below a multi-byte comment line; scale inputs incl. else-if chains and sums of 70 / 300.",
+ "C06": "Every 8th program again with CRLF line ends and below a multi-byte comment line; 65 / 257 functions before a constructor; non-ASCII identifiers.",
+ "C07": "Same-named functions with different protection (overloads, two contracts); scale inputs.",
+ "C08": "Sequences of two members (constructor / declaration / writing function before and after every other form) for memory_to_calldata; 14 elementary types x 6 declaration forms for the always-suggests halves; 65 / 257 state variables with the last one written; hex string literal as constructor right-hand side.",
+ "C09": "Revert strings of 31-33, 255-257, 287 / 288 bytes (thorough: up to 65568) and with quote characters at their ends, under 0.8.3 and 0.8.4.",
+ "C10": "A member's name used elsewhere in the file (constant, immutable, other size, struct member, function, mapping); a container per line and two containers on one line.",
+ "C11": "A list item that names a file of the findings but carries no line is an entry that is no finding; prefix names in consecutive sections; names with quotes, backslash, control characters; 65 536 entries of one (pattern, file).",
+ "C12": "Totals are read with digit-group separators; 65 536 entries of one (pattern, file).",
+ "C13": "Byte-identical contents under different names under every listing order; a directory with 1001 findings of one pattern and three memory parameters rendered six times on fresh threads.",
+ "C14": "A selected directory that cannot be listed is not replaced by another; 2 to 768 unknown names at once.",
+ "C15": "A body between the two version gates; second run of a command and a run after an all-pattern run in one working directory; extreme predecessors (nested 1100 deep, 6000 statements, 2000-term chain, rejected by the parser) before every ordinary file on one thread; directories of 65 / 70 / 257 files, numeral names, adjacent test files.",
+ "C16": "Every eligible name carries findings (checked mechanically); names t.sol, T.sol, sol.sol; directories of 65 / 257 / 1025 files; equal-length files with different findings at the same position of sibling directories.",
+ "C17": "Extreme layouts of every program (66 000-blank first line, 70 000-byte comment line, NEL / LS / PS / CR in a comment, VT / FF after every line feed); directives with two constraints on different sides of a threshold.",
+ "C18": "The reference run uses a copy of the whole directory structure without any earlier report and the same relative spelling of the analysed directory; a run through a configuration that selects nothing is one of the 23 actions.",
+ "C19": "43 item templates (multi-byte item, same-named locals, a function name shared by items); all four-item sequences over seven member-shape templates; constructs exactly 65 536 / 131 072 bytes apart.",
+}
+for _k, _v in R8.items():
+    CHECKS[_k]["text"] += " " + _v
+
 NOT_YET = "check not built yet in this revision of /verif (see DESIGN.md section 7 for the planned decision procedure)"
 
 def main():
